@@ -15,6 +15,21 @@ theorem LA3 (pos : k → m) (y : m → ℝ) (c : k) :
     ((Matrix.of fun (i : m) (c : k) => if i = pos c then (-1 : ℝ) else 0)ᵀ *ᵥ y) c = - y (pos c) := by
   simp [mulVec, dotProduct]
 
+/-- LA3 with an arbitrary stored value per column (the rule used by the verifier's structural `mtv`). -/
+theorem LA3d (pos : k → m) (d : k → ℝ) (y : m → ℝ) (c : k) :
+    ((Matrix.of fun (i : m) (c : k) => if i = pos c then d c else 0)ᵀ *ᵥ y) c = d c * y (pos c) := by
+  simp [mulVec, dotProduct]
+
+/-- LA1b: entries scaled by row and column factors, multipliers scaled by the row factors up to a constant. -/
+theorem LA1b (Js J : Matrix m n ℝ) (r : m → ℝ) (c : n → ℝ) (ys y : m → ℝ) (a : ℝ)
+    (h1 : ∀ i j, Js i j = r i * J i j * c j) (h2 : ∀ i, r i * ys i = a * y i) (j : n) :
+    (Jsᵀ *ᵥ ys) j = c j * a * ((Jᵀ *ᵥ y) j) := by
+  simp only [mulVec, dotProduct, transpose_apply, h1]
+  rw [Finset.mul_sum]; apply Finset.sum_congr rfl; intro i _
+  calc r i * J i j * c j * ys i = J i j * c j * (r i * ys i) := by ring
+    _ = J i j * c j * (a * y i) := by rw [h2 i]
+    _ = c j * a * (J i j * y i) := by ring
+
 theorem LA4 (H0 : Matrix n n ℝ) (J : Matrix m n ℝ) (lam rho : ℝ) (hl : 0 < lam) (hr : 0 < rho)
     (dx : n → ℝ) (sy b2 : m → ℝ) (b1 : n → ℝ)
     (h1 : (H0 + lam • (1 : Matrix n n ℝ)) *ᵥ dx + Jᵀ *ᵥ sy = b1)
